@@ -629,6 +629,13 @@ impl<Controller: SourceController> NtpSource<Controller> {
             // to denial of service attacks.
             debug!("Received old/unexpected packet from source");
             actions!()
+        } else if message.is_kiss_ntsn() {
+            warn!("Received nts not-acknowledge");
+            // as these can be easily faked, we dont immediately give up on receiving
+            // a response. This must be checked before the other kiss codes: an NTS NAK is
+            // accepted without authentication, so it may never change our state (in NTPv5
+            // the NAK flag can be combined with the poll values that signal RATE or DENY).
+            actions!()
         } else if message.is_kiss_rate(self.last_poll_interval) {
             // KISS packets may not have correct timestamps at all, handle them anyway
             self.remote_min_poll_interval = Ord::max(
@@ -648,11 +655,6 @@ impl<Controller: SourceController> NtpSource<Controller> {
                 self.have_deny_rstr_response = true;
                 actions!()
             }
-        } else if message.is_kiss_ntsn() {
-            warn!("Received nts not-acknowledge");
-            // as these can be easily faked, we dont immediately give up on receiving
-            // a response.
-            actions!()
         } else if message.is_kiss() {
             warn!("Unrecognized KISS Message from source");
             // Ignore unrecognized control messages
